@@ -38,8 +38,17 @@ FLAVOURS = {
     "unhash": (_k0, list, str),          # unhashable items with hashable keys
     "selfu": (None, typing.Union[int, str], str),          # self-keyed items whose ITEM type is wider than the KEY type: 5 is a fine item, not a fine key
     "attr": (operator.attrgetter("k"), AItem, str),      # key function that raises AttributeError for anything that is not an item
+    "fnz": (_k0, tuple, str),            # like fn, but the model key "a" is concretely the FALSY key "" (items ("", p))
 }
-HASHABLE = {"self", "selfu", "fn", "attr"}
+HASHABLE = {"self", "selfu", "fn", "attr", "fnz"}
+
+
+def ck(flavour, k):
+    return "" if flavour == "fnz" and k == "a" else k
+
+
+def ak(flavour, k):
+    return "a" if flavour == "fnz" and k == "" else k
 
 
 def expressible(flavour, item):
@@ -55,13 +64,13 @@ def expressible(flavour, item):
 def gamma_item(flavour, item):
     bad = item["bad"]
     if bad == "item":
-        return {"self": 5, "selfu": 2.5, "fn": "zz", "spec": 5, "unhash": "zz", "attr": KItem(k="zz")}[flavour]
+        return {"self": 5, "selfu": 2.5, "fn": "zz", "fnz": "zz", "spec": 5, "unhash": "zz", "attr": KItem(k="zz")}[flavour]
     if bad == "key":
-        return {"fn": (7, 0), "unhash": [7, 0], "attr": AItem(7, 0), "selfu": 5}[flavour]
+        return {"fn": (7, 0), "fnz": (7, 0), "unhash": [7, 0], "attr": AItem(7, 0), "selfu": 5}[flavour]
     if bad == "itemk":          # wrong item type, good key
         if flavour == "attr":
             return KOther(k=item["k"], p=item["p"])          # has attribute k (a good key) but is not an AItem
-        return KOther(k=item["k"], p=item["p"]) if flavour == "spec" else [item["k"], item["p"]] if flavour == "fn" else (item["k"], item["p"])
+        return KOther(k=item["k"], p=item["p"]) if flavour == "spec" else [ck(flavour, item["k"]), item["p"]] if flavour in ("fn", "fnz") else (item["k"], item["p"])
     if flavour in ("self", "selfu"):
         return item["k"]
     if flavour == "spec":
@@ -70,7 +79,7 @@ def gamma_item(flavour, item):
         return [item["k"], item["p"]]
     if flavour == "attr":
         return AItem(item["k"], item["p"])
-    return (item["k"], item["p"])
+    return (ck(flavour, item["k"]), item["p"])
 
 
 def alpha_item(flavour, obj):
@@ -80,14 +89,14 @@ def alpha_item(flavour, obj):
         return {"k": obj.k, "p": obj.p, "bad": "no"}
     if flavour == "attr" and isinstance(obj, AItem) and isinstance(obj.k, str) and isinstance(obj.p, int):
         return {"k": obj.k, "p": obj.p, "bad": "no"}
-    if (flavour == "fn" and isinstance(obj, tuple) or flavour == "unhash" and isinstance(obj, list)) and len(obj) == 2 \
+    if (flavour in ("fn", "fnz") and isinstance(obj, tuple) or flavour == "unhash" and isinstance(obj, list)) and len(obj) == 2 \
             and isinstance(obj[0], str) and isinstance(obj[1], int):
-        return {"k": obj[0], "p": obj[1], "bad": "no"}
+        return {"k": ak(flavour, obj[0]), "p": obj[1], "bad": "no"}
     return {"k": "?", "p": -1, "bad": "alien:" + repr(obj)[:40]}
 
 
-def alpha_key(k):
-    return k if isinstance(k, str) else "?alien:" + repr(k)[:30]
+def alpha_key(k, flavour=None):
+    return ak(flavour, k) if isinstance(k, str) else "?alien:" + repr(k)[:30]
 
 
 def make(flavour, typed, enforce, items=()):
@@ -97,7 +106,7 @@ def make(flavour, typed, enforce, items=()):
 
 
 def gamma_arg(flavour, arg):
-    return arg["k"] if arg["kind"] == "key" else gamma_item(flavour, arg["x"])
+    return ck(flavour, arg["k"]) if arg["kind"] == "key" else gamma_item(flavour, arg["x"])
 
 
 def gamma_operand(flavour, o):
@@ -132,8 +141,8 @@ def project(ks, flavour):
         items = [al(x) for x in ks]
     except Exception as e:  # noqa: BLE001
         items = [{"k": "?", "p": -1, "bad": "iter:" + type(e).__name__}]
-    return {"s": items, "len": len(ks), "keys": [alpha_key(k) for k in ks.keys()],
-            "items": [{"k": alpha_key(k), "v": al(v)} for k, v in ks.items()]}
+    return {"s": items, "len": len(ks), "keys": [alpha_key(k, flavour) for k in ks.keys()],
+            "items": [{"k": alpha_key(k, flavour), "v": al(v)} for k, v in ks.items()]}
 
 
 BIN = {"or": lambda a, b: a | b, "and": lambda a, b: a & b, "sub": lambda a, b: a - b, "xor": lambda a, b: a ^ b}
@@ -142,6 +151,11 @@ CMP = {"le": lambda a, b: a <= b, "lt": lambda a, b: a < b, "ge": lambda a, b: a
 
 
 def apply(ks, flavour, a):
+    with common.deadline(20):
+        return _apply(ks, flavour, a)
+
+
+def _apply(ks, flavour, a):
     op = a["op"]
     al = lambda x: alpha_item(flavour, x)
     extra = {}
@@ -163,14 +177,14 @@ def apply(ks, flavour, a):
         elif op == "getitem":
             ret = [al(ks[gamma_arg(flavour, a["arg"])])]
         elif op == "get":
-            v = ks.get(a["k"])
+            v = ks.get(ck(flavour, a["k"]))
             ret = [] if v is None else [al(v)]
         elif op == "contains":
             ret = [gamma_arg(flavour, a["arg"]) in ks]
         elif op in BIN:
             r = BIN[op](ks, gamma_operand(flavour, a["o"]))
             ret = [al(x) for x in r]
-            extra = {"r_is_kset": isinstance(r, KeyedSet), "r_keys": [alpha_key(k) for k in r.keys()] if isinstance(r, KeyedSet) else [],
+            extra = {"r_is_kset": isinstance(r, KeyedSet), "r_keys": [alpha_key(k, flavour) for k in r.keys()] if isinstance(r, KeyedSet) else [],
                      "r_len": len(r)}
         elif op in CMP:
             v = CMP[op](ks, gamma_operand(flavour, a["o"]))
@@ -193,7 +207,9 @@ def apply(ks, flavour, a):
             ret = []
         else:
             raise AssertionError(op)
-    except Exception as e:  # noqa: BLE001
+    except (KeyboardInterrupt, SystemExit):
+        raise
+    except BaseException as e:  # noqa: BLE001      (BaseTypeError is a BaseException)
         return type(e).__name__, [], {}
     return "ok", ret, extra
 
@@ -217,7 +233,14 @@ def run_table(job):
         if not all(expressible(flavour, x) for x in st):
             continue
         for a in acts:
-            ks = make(flavour, typed, enforce, st)
+            try:
+                ks = make(flavour, typed, enforce, st)
+            except BaseException as e:  # noqa: BLE001      (BaseTypeError is a BaseException)
+                # the container refuses its own well-typed items: reported once per state as a failing first action
+                pre = {"s": list(st), "len": len(st), "keys": [x["k"] for x in st], "items": [{"k": x["k"], "v": x} for x in st]}
+                out.append({"cfg": {"typed": typed, "enforce": enforce}, "flavour": flavour, "a": a, "pre": pre, "post": pre,
+                            "res": "ConstructionRefused:" + type(e).__name__, "ret": [], "r_is_kset": True, "r_keys": [], "r_len": 0, "src": "table"})
+                break
             out.append(step_event(ks, flavour, typed, enforce, a, {"src": "table"}))
     return out
 
